@@ -1518,4 +1518,44 @@ theorem partial_correlation_relabel (n N : Nat) (r : Nat → Nat → Rat) (π : 
   unfold normInvSq
   rw [he i i hi hi, he j j hj hj, he i j hi hj]
 
+/-! ## Round 5: affine images of the series and the partial correlation -/
+
+/-- **"affine-invariant wherever the statistic is", for the partial correlation**: replace every
+series `x_d` by `a_d · x_d + b_d` (`a_d ≠ 0`).  If the model has a value on the data it has one on
+the images, and every off-diagonal entry changes by the factor `sign(a_i a_j)` only (signed
+squares).  The elimination succeeds on the rescaled covariance matrix because `P_ul / (a_u a_l)`
+is a left inverse of it (`gjInverse_succeeds_iff`); the value is tied to the data through
+`model_partial_correlation` and `parCorr_scale_invariant`. -/
+theorem partial_correlation_affine_invariant (n N : Nat) (hn : 0 < n) (r : Nat → Nat → Rat)
+    (a b : Nat → Rat) (ha : ∀ d, a d ≠ 0) (P : Nat → Nat → Rat)
+    (h : gjInverse (fun u v => covTo n (r u) (r v)) N = some P) :
+    ∃ P', gjInverse (fun u v => covTo n (fun k => a u * r u k + b u)
+        (fun k => a v * r v k + b v)) N = some P' ∧
+      ∀ i j, i < N → j < N → i ≠ j → normInvSq P' i j = sgn (a i * a j) * normInvSq P i j := by
+  have hG : (fun u v => covTo n (fun k => a u * r u k + b u) (fun k => a v * r v k + b v)) =
+      fun u v => a u * a v * covTo n (r u) (r v) := by
+    funext u v; exact covTo_affine n hn (r u) (r v) (a u) (b u) (a v) (b v)
+  have hQ : ∀ i j, i < N → j < N →
+      sumTo N (fun l => (fun u v => P u v / (a u * a v)) i l *
+        (fun u v => a u * a v * covTo n (r u) (r v)) l j) = if i = j then 1 else 0 := by
+    intro i j hi hj
+    have hai := ha i
+    rw [sumTo_congr (g := fun l => (a j / a i) * (P i l * covTo n (r l) (r j))) (fun l _ => by
+      have hal := ha l
+      show P i l / (a i * a l) * (a l * a j * covTo n (r l) (r j)) = _
+      field_simp), sumTo_mul_left, gjInverse_correct _ N P h i j hi hj]
+    by_cases e : i = j
+    · subst e; simp [div_self hai]
+    · simp [e]
+  have hs : (gjInverse (fun u v => covTo n (fun k => a u * r u k + b u)
+      (fun k => a v * r v k + b v)) N).isSome := by
+    rw [hG]; exact (gjInverse_succeeds_iff _ N).mpr ⟨_, hQ⟩
+  obtain ⟨P', hP'⟩ := Option.isSome_iff_exists.mp hs
+  refine ⟨P', hP', fun i j hi hj hij => ?_⟩
+  rw [(model_partial_correlation n N (fun u k => a u * r u k + b u) P' hP' i j hi hj hij).1,
+    (model_partial_correlation n N r P h i j hi hj hij).1]
+  have := parCorr_scale_invariant (fun u v => covTo n (r u) (r v)) a ha (othersOf N i j) i j
+  rw [← this]
+  congr 1
+
 end Pyunicorn.Coupling
